@@ -141,6 +141,12 @@ func replayFilter(r *Report, path string) {
 
 // thorough adds the build matrix and the seeded-variant self-test.
 func thorough(rf ruleFn, r *Report, repo, verif string) {
+	// obligations of the primary configuration (before matrix/self-test additions), canaries excluded
+	for _, ob := range r.Obls {
+		if !strings.Contains(ob.Key, ".canary:") && !strings.Contains(ob.Key, "whole-program") {
+			r.baseObls++
+		}
+	}
 	// 1. build matrix
 	for _, t := range matrixTargets {
 		cell := t[0] + "/" + t[1]
@@ -186,6 +192,11 @@ func selfTest(r *Report, repo, verif string) {
 	var vs []variantMeta
 	for _, kind := range []string{"break", "keep"} {
 		files, _ := filepath.Glob(filepath.Join(verif, "variants", kind, r.Prop+"-*.patch"))
+		if kind == "keep" {
+			// behaviour-preserving variants that apply to every property (renames of unexported identifiers)
+			all, _ := filepath.Glob(filepath.Join(verif, "variants", kind, "ALL-*.patch"))
+			files = append(files, all...)
+		}
 		sort.Strings(files)
 		for _, f := range files {
 			m := variantMeta{Kind: kind, File: f}
@@ -203,6 +214,7 @@ func selfTest(r *Report, repo, verif string) {
 		return
 	}
 	self, _ := os.Executable()
+	baseObls := r.baseObls
 	results := make([]map[string]any, len(vs))
 	var wg sync.WaitGroup
 	sem := make(chan struct{}, 6)
@@ -212,7 +224,7 @@ func selfTest(r *Report, repo, verif string) {
 			defer wg.Done()
 			sem <- struct{}{}
 			defer func() { <-sem }()
-			results[i] = runVariant(self, r.Prop, repo, verif, v)
+			results[i] = runVariant(self, r.Prop, repo, verif, v, baseObls)
 		}(i, v)
 	}
 	wg.Wait()
@@ -230,7 +242,7 @@ func selfTest(r *Report, repo, verif string) {
 	}
 }
 
-func runVariant(self, prop, repo, verif string, v variantMeta) map[string]any {
+func runVariant(self, prop, repo, verif string, v variantMeta, baseObls int) map[string]any {
 	res := map[string]any{"variant": filepath.Base(v.File), "kind": v.Kind}
 	base := os.Getenv("TMPDIR")
 	if base == "" {
@@ -281,6 +293,10 @@ func runVariant(self, prop, repo, verif string, v variantMeta) map[string]any {
 		}
 	}
 	if v.Kind == "keep" {
+		if strings.HasPrefix(filepath.Base(v.File), "ALL-") && baseObls > 0 && len(obls) != baseObls {
+			res["outcome"], res["detail"] = "fail", fmt.Sprintf("a behaviour-preserving rename changes the number of obligations from %d to %d: some rule lost (or gained) an anchor", baseObls, len(obls))
+			return res
+		}
 		if len(bad) > 0 {
 			res["outcome"], res["detail"] = "fail", fmt.Sprintf("behaviour-preserving variant raised %v", bad)
 		} else {
